@@ -260,6 +260,16 @@ func isKeyword(tag Tag, tv string) bool {
 	return false
 }
 
+// isTypeKeyword reports whether tv is the annotation keyword of some Thrift type
+func isTypeKeyword(tv string) bool {
+	for tag, kw := range keywordTab {
+		if kw != "" && isKeyword(Tag(tag), tv) {
+			return true
+		}
+	}
+	return tv == "list" || tv == "set"
+}
+
 func isident(c byte) bool {
 	return isident0(c) || c >= '0' && c <= '9'
 }
@@ -534,12 +544,12 @@ func doMatchStruct(vt reflect.Type, def string, i *int, tv *string) (bool, error
 		return false, err
 	}
 
-	/* an anonymous struct answers to any name, qualified or not */
+	/* an anonymous struct answers to any name, qualified or not, that is not the keyword of a type */
 	anon := tn == "" && vt.Kind() == reflect.Struct
 
 	/* just a simple type with no qualifiers */
 	if tok == "" || tok == ":" || tok == ">" {
-		return anon || tn == *tv, nil
+		return anon && !isTypeKeyword(*tv) || tn == *tv, nil
 	}
 
 	/* otherwise, it must be a "." */
@@ -556,5 +566,5 @@ func doMatchStruct(vt reflect.Type, def string, i *int, tv *string) (bool, error
 
 	/* update parsing position */
 	*i = sp
-	return anon || tn == *tv, nil
+	return anon && !isTypeKeyword(*tv) || tn == *tv, nil
 }
